@@ -87,7 +87,12 @@ class GenT(edzed.FSM):
 
     def enter_b(self):
         self.sdata['n'] = self.sdata.get('n', 0) + 1
+        # 'hold': the timed event of this state will be rejected by cond_tmo
+        self.sdata['hold'] = bool(edzed.fsm_event_data.get().get('hold'))
         ELOG.append(('enter_b', self.name))
+
+    def cond_tmo(self):
+        return not self.sdata.get('hold')
 
     def enter_a(self):
         ELOG.append(('enter_a', self.name))
@@ -104,7 +109,8 @@ def alphabet(kind):
     if kind == 'Counter':
         return [('inc', None), ('put', 12), ('dec', None), ('put', 13)]
     if kind == 'GenT':
-        return [('go', None), ('go', 6), ('back', None), ('tick',), ('to_expiry',), ('bad', 'boom')]
+        return [('go', None), ('go', 6), ('back', None), ('tick',), ('to_expiry',), ('bad', 'boom'),
+                ('go', 'hold')]
     if kind == 'Timer':
         return [('start', None), ('start', 6), ('stop', None), ('tick',), ('to_expiry',)]
     return [('put', None), ('put', 6), ('tick',), ('to_expiry',)]
@@ -131,6 +137,13 @@ def configs(tier):
     for fs in ('start', 'task', 'noinit'):
         for pos in (0, 1):
             out.append(dict(mode='failstart', fail=fs, pos=pos))
+    # restart with start-up traffic: another block's first output sends an event (plain, filtered
+    # out, conditional resolving to 'no event') to the persistent block before / after its restore
+    for kind in BLOCKS:
+        for ev in ('none', 'cond-none', 'cond-put', 'filtered', 'plain'):
+            for order in (0, 1):
+                for srcval in (False, True):
+                    out.append(dict(mode='traffic', kind=kind, ev=ev, order=order, srcval=srcval))
     return out
 
 
@@ -192,6 +205,14 @@ def first_run(cfg):
                 except Exception:   # pylint: disable=broad-except
                     pass
             snaps.append((label, st, truth, wall(), live_state(aux)))
+            fresh = sync or label in ('init', 'stop')      # otherwise the storage may be stale
+            for what, val in (('block state', truth[0] if truth else None),
+                              ('storage', st.get(blk.key) if fresh and not failed['flag'] else None)):
+                if (isinstance(val, (tuple, list)) and len(val) == 3 and val[1] is not None
+                        and val[1] < wall() / 1e6 - 1e-3):
+                    viol.append(('saved-timer-already-expired',
+                                 f"{label}: {what} {val!r} reports a timer that expired before "
+                                 f"now={wall() / 1e6}"))
             if failed['flag']:
                 if st.get(blk.key) != failed['entry']:
                     viol.append(('written-after-failed-handler',
@@ -234,6 +255,8 @@ def first_run(cfg):
                             data['duration'] = sym[1]
                     elif sym[1] == 'boom':
                         data['boom'] = True
+                    elif sym[1] == 'hold':
+                        data['hold'] = True
                     elif sym[1] is not None:
                         data['duration'] = sym[1]
                     before = copy.deepcopy(storage.get(blk.key))
@@ -324,6 +347,8 @@ def run_config(cfg):
     acc = Acc()
     if cfg['mode'] == 'failstart':
         return run_failstart(cfg, acc)
+    if cfg['mode'] == 'traffic':
+        return run_traffic(cfg, acc)
     kind, sync, exp = cfg['kind'], cfg['sync'], cfg['exp']
     snaps, viol, failed = first_run(cfg)
     acc.execs += 1
@@ -393,7 +418,10 @@ def run_config(cfg):
                     acc.violation(f"C06:restored-output-differs:{kind}",
                                   f"{label}+{down}s: output {res['out']!r}, before the crash {truth[1]!r}", cfg=cfg)
                 if 's0' in res:
-                    if res['before_expiry'] != res['s0'] or res['after_expiry'] == res['s0']:
+                    held = (kind == 'GenT' and isinstance(entry, (tuple, list))
+                            and entry[2].get('hold'))     # the timed event will be rejected
+                    if res['before_expiry'] != res['s0'] or (
+                            (res['after_expiry'] == res['s0']) != bool(held)):
                         acc.violation(f"C06:timer-not-at-same-absolute-time:{kind}",
                                       f"{label}+{down}s: saved {entry!r}; state 1 ms before the saved expiry "
                                       f"{res['before_expiry']!r}, 1 ms after {res['after_expiry']!r}", cfg=cfg)
@@ -416,6 +444,69 @@ def run_config(cfg):
                     acc.violation(f"C06:other-block-not-restored:{kind}",
                                   f"{label}+{down}s: aux {res['aux']!r}, storage {st!r}", cfg=cfg)
     acc.sample({'cfg': cfg, 'snapshots': [(l, s) for (l, s, *_r) in snaps][:3]}, limit=2)
+    return acc
+
+
+SAVED = {'Input': 2, 'Counter': 11, 'GenT': ('b', None, {'n': 1, 'hold': True}),
+         'Timer': ('on', None, {}), 'InputExp': ('valid', None, {'input': 'kept'})}
+
+
+def run_traffic(cfg, acc):
+    """A saved state must survive a restart also when events arrive during the start-up."""
+    kind, ev = cfg['kind'], cfg['ev']
+    res = {}
+    with Sim(base_unix_us=BASE_US) as sim:
+        etype_ok = {'Input': 'put', 'Counter': 'put', 'GenT': 'go', 'Timer': 'start', 'InputExp': 'put'}[kind]
+        events = {
+            'none': None,
+            'cond-none': edzed.Event('blk', edzed.EventCond(etype_ok, None)),   # srcval False -> None
+            'cond-put': edzed.Event('blk', edzed.EventCond(None, etype_ok)),    # srcval True -> None
+            'filtered': edzed.Event('blk', etype_ok, efilter=lambda data: False),
+            'plain': edzed.Event('blk', etype_ok, efilter=edzed.DataEdit.add(value=1)),
+        }[ev]
+
+        def mk_src():
+            return edzed.Input('src', persistent=True, initdef=not cfg['srcval'], on_output=events)
+        if cfg['order'] == 0:
+            src = mk_src()
+        blk, aux = make_blocks(kind, 1, None)
+        if cfg['order'] == 1:
+            src = mk_src()
+        storage = {blk.key: copy.deepcopy(SAVED[kind]), src.key: cfg['srcval'], aux.key: 7,
+                   'edzed-stop-time': BASE_US / 1e6 - 100.0}
+        initial = copy.deepcopy(storage)
+        sim.circuit.set_persistent_data(storage)
+
+        async def driver():
+            task = asyncio.create_task(sim.circuit.run_forever())
+            try:
+                await sim.circuit.wait_init()
+                res['started'] = True
+            except Exception as err:    # pylint: disable=broad-except
+                res['err'] = repr(err)
+                await stop(sim.circuit)
+                return
+            res['state'] = live_state(blk)
+            res['entry'] = copy.deepcopy(storage.get(blk.key))
+            await stop(sim.circuit)
+            del task
+        sim.run(driver())
+    acc.execs += 1
+    acc.outcome(('traffic', kind, ev, cfg['order'], cfg['srcval'], repr(res.get('state'))))
+    acc.state(('traffic', kind, ev, cfg['order'], cfg['srcval']))
+    if not res.get('started'):
+        acc.violation(f'C06:restart-failed:{kind}', f"{cfg}: {res.get('err')}", cfg=cfg)
+        return acc
+    delivered = ev == 'plain' or (ev == 'cond-none' and cfg['srcval']) or (
+        ev == 'cond-put' and not cfg['srcval'])
+    if not delivered:
+        # nothing reached the block: it must come up exactly as saved
+        if not same_state(res['state'][0], initial[blk.key] if kind in ('Input', 'Counter')
+                          else tuple(initial[blk.key])):
+            acc.violation(f'C06:saved-state-lost-at-restart:{kind}',
+                          f"start-up event '{ev}' (source restored to {cfg['srcval']}, creation order "
+                          f"{cfg['order']}): saved {initial[blk.key]!r}, block came up with "
+                          f"{res['state'][0]!r}; entry after init {res['entry']!r}", cfg=cfg)
     return acc
 
 
